@@ -169,9 +169,11 @@ def run_conversation(rec, case):
                                     '8x', '9']))
                 steps.append('odd')
             else:
-                # the scripted server emits no periodic PING; a NOOP keeps the
-                # connection from looking silent while time passes
-                deliver('6')
+                # the scripted server emits no periodic PING by itself
+                # (a real server PINGs every ping_interval; both client loops
+                # treat a longer idle period as a dead connection)
+                pings.append('')
+                deliver('2')
                 w.quiesce()
                 w.advance(rng.choice([0.25, 1, 2]))
                 steps.append('adv')
